@@ -15,6 +15,7 @@ import Proofs.C02Tree
 import Proofs.C02Base
 import Proofs.C02Frame
 import Proofs.C02Fin
+import Proofs.C02
 
 namespace TM
 open C02 C03
@@ -135,11 +136,12 @@ theorem nchangeState_quiet (hC : NoCmds sc) (scope : Scope) (x : Ctx) (dest : SP
   · simp only [Res.state?, Option.some.injEq] at h; subst h; exact Quiet.refl _
   · simp [Res.state?] at h
   · rename_i r _
+    have q0 : Quiet s ({ s with exited := s.exited ++ r.exitNames } : NSt) := Quiet.of_glog rfl
     rcases bind_state h with ⟨e, he⟩ | ⟨a, s1, he, h1⟩
-    · exact exitAll_quiet sub sc cfg hC x _ s s' (by rw [he]; rfl)
-    · have q1 := exitAll_quiet sub sc cfg hC x _ s s1 (by rw [he]; rfl)
+    · exact q0.trans (exitAll_quiet sub sc cfg hC x _ _ s' (by rw [he]; rfl))
+    · have q1 := exitAll_quiet sub sc cfg hC x _ _ s1 (by rw [he]; rfl)
       have q2 := enterAll_quiet sub sc cfg hC x _ _ s' h1
-      exact q1.trans ((Quiet.of_glog (s := s1) (s' := { s1 with conf := r.tree }) rfl).trans q2)
+      exact q0.trans (q1.trans ((Quiet.of_glog (s := s1) (s' := { s1 with conf := r.tree }) rfl).trans q2))
 
 end
 
@@ -517,14 +519,15 @@ section
 variable (sub : NSub) (sc : Script) (cfg : NCfg)
 
 /-- in a scope without events, over definitions without events, `_trigger_event_nested` does nothing -/
-theorem ten_silent (x : Ctx) (ev : Nat) : ∀ (tree : Forest) (scope : Scope) (res : List (Nat × Bool)) (s : NSt),
+theorem ten_silent (x : Ctx) (ev : Nat) : ∀ (tree : Forest) (scope : Scope) (res : List (Nat × Bool)) (off : Bool)
+    (s : NSt),
     scope.states.noEvents = true → scope.events = [] → ConfOK scope.states tree = true →
-    ten sub sc cfg x ev scope tree res s = .ok res s := by
+    ten sub sc cfg x ev scope tree res off s = .ok res s := by
   intro tree
   induction tree with
-  | nil => intro scope res s _ _ _; rw [ten]
+  | nil => intro scope res off s _ _ _; rw [ten]
   | cons key value rest ihv ihr =>
-    intro scope res s hno hev hc
+    intro scope res off s hno hev hc
     obtain ⟨_, hrest, d, kids, hf, _, hv⟩ := ConfOK_cons hc
     obtain ⟨hde, hkn⟩ := noEvents_find hno hf
     rw [ten]
@@ -533,12 +536,12 @@ theorem ten_silent (x : Ctx) (ev : Nat) : ∀ (tree : Forest) (scope : Scope) (r
     cases hve : value.isEmpty with
     | true =>
       simp only [if_true, bind_ok, hev, alookup, ite_self]
-      exact ihr scope res s hno hev hrest
+      exact ihr scope res off s hno hev hrest
     | false =>
       simp only [Bool.false_eq_true, if_false, he]
-      rw [ihv _ [] s hkn hde (hv hve).2]
+      rw [ihv _ [] false s hkn hde (hv hve).2]
       simp only [bind_ok, summarize, List.isEmpty_nil, if_true, hev, alookup, ite_self]
-      exact ihr scope res s hno hev hrest
+      exact ihr scope res off s hno hev hrest
 
 end
 
@@ -548,7 +551,7 @@ end Pass
 theorem ten_global_only (cfg : NCfg) (sub : NSub) (sc : Script) (x : Ctx) (ev : Nat)
     (hno : cfg.states.noEvents = true) (k : Nat) (v : Forest) (hc : ConfOK cfg.states (.cons k v .nil) = true)
     (s : NSt) :
-    ten sub sc cfg x ev cfg.root (.cons k v .nil) [] s =
+    ten sub sc cfg x ev cfg.root (.cons k v .nil) [] false s =
       (match alookup ev cfg.events with
        | none => .ok [] s
        | some ts => (triggerNested sub sc cfg cfg.root x ev ts s).bind fun tmp s2 =>
@@ -561,13 +564,13 @@ theorem ten_global_only (cfg : NCfg) (sub : NSub) (sc : Script) (x : Ctx) (ev : 
   have he : cfg.root.enter k = some { owner := some d, states := kids, events := d.events, pre := cfg.root.pre ++ [k] } := by
     simp [Scope.enter, hf']
   have hev : cfg.root.events = cfg.events := rfl
-  have htail : ∀ (r : NR (List (Nat × Bool))),
-      (r.bind fun res2 s2 => ten sub sc cfg x ev cfg.root .nil res2 s2) = r := by
-    intro r; cases r <;> simp [Res.bind, ten]
+  have htail : ∀ (res : List (Nat × Bool)) (off : Bool) (s2 : NSt),
+      ten sub sc cfg x ev cfg.root .nil res off s2 = .ok res s2 := by
+    intro res off s2; rw [ten]
   rw [ten]
   cases hve : v.isEmpty with
   | true =>
-    simp only [if_true, Pass.bind_ok, alookup, Option.getD_none, htail, hev]
+    simp only [if_true, Pass.bind_ok, alookup, Option.getD_none, htail, hev, and_self]
     cases alookup ev cfg.events with
     | none => rfl
     | some ts =>
@@ -575,8 +578,8 @@ theorem ten_global_only (cfg : NCfg) (sub : NSub) (sc : Script) (x : Ctx) (ev : 
       congr 1
   | false =>
     simp only [Bool.false_eq_true, if_false, he]
-    rw [Pass.ten_silent sub sc cfg x ev v _ [] s hkn hde (hv hve).2]
-    simp only [Pass.bind_ok, summarize, List.isEmpty_nil, if_true, alookup, Option.getD_none, htail, hev]
+    rw [Pass.ten_silent sub sc cfg x ev v _ [] false s hkn hde (hv hve).2]
+    simp only [Pass.bind_ok, summarize, List.isEmpty_nil, if_true, alookup, Option.getD_none, htail, hev, and_self]
     cases alookup ev cfg.events with
     | none => rfl
     | some ts =>
@@ -648,13 +651,16 @@ theorem triggerNested_step (hC : NoCmds sc) (x : Ctx) (ev : Nat) (ts : List NTra
     rcases bind_state h with ⟨e, he⟩ | ⟨a, s1, he, h1⟩
     · obtain ⟨seg, e1, h2, h3, _⟩ := haux s' hpw hnd (by rw [he]; rfl)
       exact ⟨seg, e1, h2, h3⟩
-    · simp only [Res.state?, Option.some.injEq] at h1; subst h1
-      obtain ⟨seg, e1, h2, h3, _⟩ := haux s1 hpw hnd (by rw [he]; rfl)
-      exact ⟨seg, e1, h2, h3⟩
+    · obtain ⟨seg, e1, h2, h3, _⟩ := haux s1 hpw hnd (by rw [he]; rfl)
+      split at h1
+      · simp only [Res.state?, Option.some.injEq] at h1; subst h1
+        exact ⟨seg, e1, h2, h3⟩
+      · simp only [Res.state?, Option.some.injEq] at h1; subst h1
+        exact ⟨seg, e1, h2, h3⟩
 
 theorem ten_step (hC : NoCmds sc) (x : Ctx) (ev : Nat) (hno : cfg.states.noEvents = true) (s s' : NSt)
     (hlen : s.conf.len = 1) (hcok : ConfOK cfg.states s.conf = true)
-    (h : (ten sub sc cfg x ev cfg.root s.conf [] s).state? = some s') :
+    (h : (ten sub sc cfg x ev cfg.root s.conf [] false s).state? = some s') :
     Step ev ((alookup ev cfg.events).getD []) s s' := by
   obtain ⟨k, v, hkv⟩ := Forest.len_one hlen
   rw [hkv, ten_global_only cfg sub sc x ev hno k v (hkv ▸ hcok) s] at h
@@ -710,10 +716,11 @@ theorem nfinalize_quiet (hC : NoCmds sc) (x : Ctx) (s s' : NSt) (h : nfinalize s
 
 theorem ntriggerEvent_body (hC : NoCmds sc) (x : Ctx) (ev : Nat) (s s'' : NSt)
     (h : (ntriggerEvent sub sc cfg x ev s).state? = some s'') :
-    ∃ s', (triggerEventBody sub sc cfg x ev { s with result := none }).state? = some s' ∧ Quiet s' s'' := by
+    ∃ s', (triggerEventBody sub sc cfg x ev { s with result := none, exited := [] }).state? = some s' ∧
+      Quiet s' s'' := by
   unfold ntriggerEvent at h
   simp only [] at h
-  cases hb : triggerEventBody sub sc cfg x ev { s with result := none } with
+  cases hb : triggerEventBody sub sc cfg x ev { s with result := none, exited := [] } with
   | oof => rw [hb] at h; simp [Res.state?] at h
   | ok b s1 =>
     rw [hb] at h
@@ -797,7 +804,7 @@ theorem C03_P1_global_only (cfg : NCfg) (sub : NSub) (sc : Script) (hR : NoRaise
       Pass.Step ev ((alookup ev cfg.events).getD []) s s2 := by
     intro s2 h2
     obtain ⟨sb, hb, qb⟩ := Pass.ntriggerEvent_body sub sc cfg hC _ ev s1 s2 h2
-    have hstep := Pass.triggerEventBody_step sub sc cfg hC _ ev hno { s1 with result := none } sb
+    have hstep := Pass.triggerEventBody_step sub sc cfg hC _ ev hno { s1 with result := none, exited := [] } sb
       (by show s1.conf.len = 1; rw [hconf]; exact hlen) (by show ConfOK cfg.states s1.conf = true; rw [hconf]; exact hcok) hb
     exact Pass.Step.wrap (q01.trans (Pass.Quiet.of_glog rfl)) hstep qb
   cases hn : ntriggerEvent sub sc cfg ⟨0, s.nextTag⟩ ev s1 with
